@@ -11,15 +11,86 @@ import (
 
 type ghostFn func(ev *Evaluator, args []SVal) SVal
 
-func registerGhosts(fx *FnCtx) {}
+func registerGhosts(fx *FnCtx) {
+	for _, g := range ghostInits {
+		g(fx)
+	}
+	// remaining(r): how many more records the csv reader r will yield (ghost; finite input)
+	fx.ghostFuncs["remaining"] = func(ev *Evaluator, args []SVal) SVal {
+		return SVal{v: Val{t: "(select " + ev.st.ghost["csvrem"] + " " + args[0].v.t + ")"}, typ: intT}
+	}
+}
 
-func initGhostState(fx *FnCtx, st *State) {}
+func init() {
+	ghostInits = append(ghostInits, func(fx *FnCtx) {
+		// nfields(r): the number of fields of every record of csv reader r
+		fx.ghostFuncs["nfields"] = func(ev *Evaluator, args []SVal) SVal {
+			fx.ufun("csv_nfields", []string{"Ref"}, "Int")
+			return SVal{v: Val{t: "(csv_nfields " + args[0].v.t + ")"}, typ: intT}
+		}
+	})
+}
+
+var ghostInits []func(fx *FnCtx)
+
+func initGhostState(fx *FnCtx, st *State) {
+	st.ghost["csvrem"] = fx.s.declare("csvrem0", "(Array Ref Int)")
+}
+
+func ghostSortOf(k string) string {
+	switch k {
+	case "csvrem":
+		return "(Array Ref Int)"
+	}
+	return "Opaque"
+}
 
 func extraMods(eng *Engine, callee *ssa.Function, c *ssa.CallCommon, m *Modset) bool {
+	switch callee.String() {
+	case "(*encoding/csv.Reader).Read":
+		m.add(types.Typ[types.String], false, false)
+		m.ghost["csvrem"] = true
+		return true
+	}
 	return false
 }
 
 func (fr *Frame) extraExternal(ins ssa.Instruction, fn *ssa.Function, c *ssa.CallCommon, args []Val, st *State) ([]Val, bool) {
+	fx := fr.fx
+	switch fn.String() {
+	case "(*encoding/csv.Reader).Read":
+		fx.trusted["(*encoding/csv.Reader).Read: returns an error, or a record with exactly csv_nfields(r) >= 1 fields (FieldsPerRecord == 0: as many as the first record); the record is freshly allocated unless r.ReuseRecord is set, in which case it may share its backing array with records returned earlier by r (whose contents are then overwritten); a reader yields finitely many records; nothing else is modified; never panics"] = true
+		r := args[0].t
+		fr.safety("safe:nil", ins, fr.describe(c.Args[0])+".Read", st, not(eq(r, "nilref")))
+		rt := c.Args[0].Type().Underlying().(*types.Pointer).Elem()
+		si := fx.tm.structInfo(rt)
+		key, srt := fx.tm.heapKey(rt)
+		hr := fx.heap(st, key, srt)
+		reuse := "false"
+		for _, f := range si.Fields {
+			if f.Name == "ReuseRecord" {
+				reuse = fmt.Sprintf("(%s (select %s %s))", f.Sel, hr, r)
+			}
+		}
+		fx.ufun("csv_nfields", []string{"Ref"}, "Int")
+		fx.s.assume("true", fmt.Sprintf("(>= (csv_nfields %s) 1)", r))
+		err := fx.s.freshConst("err", "Iface")
+		okc := fx.s.define("readok", "Bool", eq(err, "niliface"))
+		b := fx.s.freshConst("reused", "Bool")
+		fresh := fx.allocRef(st, "0")
+		recObj := fx.s.define("recobj", "Int", ite(and(reuse, b), "(obj "+r+")", "(obj "+fresh+")"))
+		other := fx.havocVal("rec_on_err", c.Signature().Results().At(0).Type(), st)
+		rec := fx.s.define("record", "Slice", ite(okc, fmt.Sprintf("(mkslice %s 0 (csv_nfields %s) (csv_nfields %s))", recObj, r, r), other.t))
+		skey, ssrt := fx.tm.heapKey(types.Typ[types.String])
+		h := fx.heap(st, skey, ssrt)
+		nh := fx.s.freshConst("Hcsv", "(Array Ref "+ssrt+")")
+		fx.s.assume("true", fmt.Sprintf("(forall ((x Ref)) (! (=> (not (= (obj x) (obj %s))) (= (select %s x) (select %s x))) :pattern ((select %s x))))", r, nh, h, nh))
+		st.heaps[skey] = nh
+		rem := st.ghost["csvrem"]
+		fx.s.assume(st.guard, fmt.Sprintf("(=> %s (> (select %s %s) 0))", okc, rem, r))
+		st.ghost["csvrem"] = fx.s.define("csvrem", "(Array Ref Int)", fmt.Sprintf("(store %s %s (ite %s (- (select %s %s) 1) (select %s %s)))", rem, r, okc, rem, r, rem, r))
+		return []Val{{t: rec}, {t: err}}, true
+	}
 	return nil, false
 }
 
